@@ -616,7 +616,10 @@ func Table(payload uint32) []*Method {
 	// Readdir -------------------------------------------------------------
 	add(&Method{
 		Name: "Readdir", Targets: []Target{TDirOpen},
-		Args: []Field{{Name: "offset", Kind: KU64, Def: d64(0)}, {Name: "count", Kind: KU32, Def: uint64(2000)}},
+		// count: the u32 boundary values plus every byte count within 2 of the
+		// end of an entry of the default listing (entries of 31, 34 and 25
+		// bytes: ends at 31, 65, 90), where "whole entries that fit" is decided
+		Args: []Field{{Name: "offset", Kind: KU64, Def: d64(0)}, {Name: "count", Kind: KU32, Def: uint64(2000), Alts: readdirCounts()}},
 		Res:  []Field{{Name: "entries", Kind: KDirents, Def: DefaultDirents()}},
 		Invoke: func(e *Env, a V) (o Outcome) {
 			defer guard(&o)
@@ -825,6 +828,19 @@ func DefaultDirents() []refcodec.Dirent {
 		{QID: refcodec.QID{Type: 0x00, Version: 0x11121314, Path: d64(2)}, Offset: d64(3), Type: 0x00, Name: "file\xff\x00name"},
 		{QID: refcodec.QID{Type: 0x02, Version: 0x21222324, Path: d64(4)}, Offset: d64(5), Type: 0x02, Name: "l"},
 	}
+}
+
+// readdirCounts is the alphabet of Readdir byte counts.
+func readdirCounts() []interface{} {
+	out := []interface{}{uint64(0), uint64(1), uint64(0xff), uint64(0x100), uint64(0x7fff), uint64(0xffff), uint64(0x10000), uint64(0x7fffffff), uint64(0x80000000), uint64(0xffffffff)}
+	end := uint64(0)
+	for _, d := range DefaultDirents() {
+		end += uint64(refcodec.DirentSize(d.Name))
+		for _, delta := range []int64{-2, -1, 0, 1, 2} {
+			out = append(out, uint64(int64(end)+delta))
+		}
+	}
+	return out
 }
 
 // WholeEntries is the documented rewriting of directory listings: the reply
